@@ -38,8 +38,19 @@ impl Tables {
             }
             o += 1;
         }
-        let mut i = 0;
-        while i < self.n { if self.sym[i] >= 0x80 { return false; } i += 1; }
+        // the input is valid UTF-8 and operands only ever report lengths that end on a character boundary
+        // (the property's premise for extern rules); positions inside a character are never legitimate call sites
+        let s = match core::str::from_utf8(&self.sym[..self.n]) { Ok(s) => s, Err(_) => return false };
+        let mut o = 0;
+        while o < NOPS {
+            let mut p = 0;
+            while p <= self.n {
+                let v = self.op[o][p] as usize;
+                if v != 0 && (!s.is_char_boundary(p) || !s.is_char_boundary(p + v - 1)) { return false; }
+                p += 1;
+            }
+            o += 1;
+        }
         true
     }
 }
